@@ -459,7 +459,47 @@ def r6_cross_chunk_scan(ctx):
     ctx.ob(ol.where, "line-group formats: a single chunk is complete iff it can be cut; several chunks fall back to the line count", ok, "", key="C01-R6|oneline")
 
 
+def r7_crlf_sniff(ctx):
+    """The carriage-return adjustment of line-group buffers is skipped when a sampled line end shows no '\r'.  The sample must be a line that
+    cannot be the last line of the file: the reader appends a bare '\n' to a file without final newline, so the last line of the last entry of a
+    CRLF file ends in '\n' only; a chunk holding just that entry would be taken for an LF chunk if its last line were sampled."""
+    ix = ctx.index
+    f = ix.func("bionumpy.io.one_line_buffer", "OneLineBuffer._modify_for_carriage_return")
+    fe, data = f.params[1], f.params[2]
+    env = local_env(f.node)
+    # sampled positions: every subscript of the field-end table that feeds a test guarding the unadjusted return
+    samples = []
+    for t in [n for n in body_walk(f.node) if isinstance(n, ast.If)]:
+        if not any(isinstance(r, ast.Return) and u(r.value) == fe for r in t.body):
+            continue
+        from ..astutil import inline_locals
+        test = inline_locals(t.test, env)
+        for sub in ast.walk(test):
+            if isinstance(sub, ast.Subscript) and u(sub.value) == fe and isinstance(sub.slice, ast.Tuple) and len(sub.slice.elts) == 2:
+                samples.append(sub.slice.elts[1])
+    ctx.floor("sampled line-end columns in the carriage-return sniff", len(samples), 1)
+    cols = []
+    for c in samples:
+        try:
+            cols.append(int(sym.poly(c).const_value()) if sym.poly(c).is_const() else None)
+        except Exception:
+            cols.append(None)
+    # the size guard `field_ends[0, 0] < 1` samples column 0 as well: fine
+    bad = [u(c) for c, v in zip(samples, cols) if v is None or v != 0]
+    ctx.ob(f.where, "the CRLF sniff of line-group formats looks at the first (header) line of entries only - a line that is never the file's last line", not bad,
+           f"sampled columns: {[u(c) for c in samples]}", key="C01-R7|oneline-sniff-column")
+    rets = [n for n in body_walk(f.node) if isinstance(n, ast.Return)]
+    ok = any(sym.canon(r.value) == sym.canon(sym.parse_expr(f"{fe} - ({data}[{fe} - 1] == '\\r')")) for r in rets)
+    ctx.ob(f.where, "when a carriage return is seen, every line end that is preceded by '\\r' is moved back by one (per line, not globally)", ok, "; ".join(u(r.value) for r in rets),
+           key="C01-R7|oneline-adjust")
+    g = ix.func("bionumpy.io.delimited_buffers", "DelimitedBuffer._modify_for_carriage_return")
+    txt = u(g.node)
+    ok = "ends[:, -1] -= data[ends[:, -1] - 1] == '\\r'" in txt and "ends = ends.copy()" in txt
+    ctx.ob(g.where, "delimited formats: the last field of each line ends before a '\\r' that precedes the newline (on a copy of the end table)", ok, "", key="C01-R7|delimited-adjust")
+
+
 RULES = [
+    ("C01-R7", r7_crlf_sniff),
     ("C01-R6", r6_cross_chunk_scan),
     ("C01-R1", r1_pending_bytes),
     ("C01-R2", r2_carry_over),
